@@ -5,6 +5,7 @@ C08 — Malformed or foreign packets are discarded without panic or effect (endp
 (Model/Protocol.lean). Each theorem is for every endpoint state, every time and every value of
 the remaining fields.
 -/
+import GgrsModel.Model.Inventory
 import GgrsModel.Proofs.Endpoint
 import GgrsModel.Properties.C14
 
